@@ -96,6 +96,19 @@ func (m *vfCSMeasure) point(kind string, l int, force bool, alt bool) (line stri
 			return "", e
 		}
 		return vfCSLineFor(lines, m.names.acc), nil
+	case "session": // a whole session whose ID token has l incompressible bytes (refresh token 3l/2+7): the LONGEST line
+		pr := vfNewRand(uint64(l)*7919 + 1)
+		lines, e := vfMiscSaveSession(sm, force, true, "user@example.com", vfCSFill(l, true, pr), vfCSFill(l*3/2+7, true, pr), "", "", "", "")
+		if e != nil {
+			return "", e
+		}
+		longest := ""
+		for _, ln := range lines {
+			if len(ln) > len(longest) {
+				longest = ln
+			}
+		}
+		return longest, nil
 	default: // main
 		lines, e := vfMiscSaveSession(sm, force, true, vfCSFill(l, alt, m.r), "", "",
 			vfCSFill(36, alt, m.r), vfCSFill(44, alt, m.r), vfCSFill(43, alt, m.r), "/"+vfCSFill(1023, alt, m.r))
@@ -217,6 +230,20 @@ func TestVF_CookieSize(t *testing.T) {
 					contentDependent = append(contentDependent, map[string]interface{}{"kind": "main", "l": l, "force_https": force, "line_a": c.Line, "line_b": len(l2)})
 				}
 			}
+		}
+	}
+	// whole sessions, EVERY ID-token length over two and a half chunk periods (so that every residue of the
+	// compressed length modulo the chunk size occurs, whatever the splitting rule does with short remainders)
+	hi := 5200
+	if vfTier() == "thorough" {
+		hi = 12000
+	}
+	for _, force := range []bool{true, false} {
+		for l := 1300; l <= hi; l++ {
+			c := &vfCSCase{ID: id, Kind: "session", L: l, Force: force}
+			id++
+			m.observe(c)
+			out.put(c)
 		}
 	}
 	// whole sessions with incompressible tokens: every line against the tables
